@@ -46,6 +46,18 @@
 //! Mode `Timeout`: `tokio::time::timeout(3 ms, collect)` must return `Elapsed` (then the release
 //! oracle) — reaching the source cap first is accepted only if the watcher was never starved.
 //!
+//! Kind `PartialDrop` (1 case in 6; added after seeded defect C19-a was missed): exchange shapes
+//! (hash / round-robin / order-preserving RepartitionExec, InterleaveExec; 2–4 output partitions)
+//! over endless never-Pending sources whose tail has 1, 2 or 6 distinct keys (1 = every row goes to
+//! one "hot" output), one stream per output partition on the multi-thread runtime. After `take`
+//! batches the streams that received data and those that did not are dropped in a generated order
+//! (hot first / cold first / together) with a generated amount of source progress in between, then
+//! the plan; then the release oracle (10 000 x 1 ms). A task that no longer yields cannot be aborted
+//! and keeps its source alive → violation (the harness then stops the sources via a flag).
+//! Seeded defect C19-a (`pull_from_input` counts only batches sent to a connected receiver towards
+//! its periodic yield): detected — `tools/mutrun seeded/C19-a/patch.diff -- ./check C19 quick` →
+//! VIOLATION (RepartHash, tail-keys=1, HotFirst).
+//!
 //! Non-trivial: (Drop) at some drop point 0 < k < completion something was held at the moment of
 //! the drop (live source stream, alive task, reservation, spill file); (Coop) the query was still running when cancelled.
 //!
@@ -110,6 +122,25 @@ pub enum Kind {
         after: u8,
     },
     CoopTimeout,
+    /// Exchange shape over endless never-Pending sources, one stream per output partition, the
+    /// streams dropped in a generated order (multi-thread runtime)
+    PartialDrop {
+        order: DropOrder,
+        /// distinct key values in the endless tail (1 = every row goes to one output partition)
+        nkeys: u8,
+        /// output batches to take before the first drop
+        take: u8,
+        /// source batches (x16) to let pass between the first and the second drop
+        gap: u8,
+    },
+}
+
+#[derive(Clone, Copy, Debug, Serialize, Deserialize, PartialEq)]
+pub enum DropOrder {
+    /// first the output streams that received data, later the ones that received none
+    HotFirst,
+    ColdFirst,
+    Together,
 }
 
 #[derive(Clone, Debug, Serialize, Deserialize)]
@@ -196,7 +227,35 @@ fn spills(shape: &Shape) -> bool {
     matches!(shape, Shape::Sort { .. } | Shape::SortSql | Shape::AggGroup | Shape::AggDistinct | Shape::SortMergeJoin { .. } | Shape::HashJoin { .. } | Shape::NestedLoopJoin { .. } | Shape::WindowFull)
 }
 
+fn partial_strategy(tier: Tier) -> BoxedStrategy<Case> {
+    let n = 2u8..=4;
+    let shape = prop_oneof![
+        4 => n.clone().prop_map(|n| Shape::RepartHash { n }),
+        2 => n.clone().prop_map(|n| Shape::RepartRoundRobin { n }),
+        2 => (n.clone(), any::<bool>()).prop_map(|(n, hash)| Shape::RepartOrdered { n, hash }),
+        2 => n.clone().prop_map(|n| Shape::Interleave { n }),
+    ];
+    let order = prop_oneof![Just(DropOrder::HotFirst), Just(DropOrder::ColdFirst), Just(DropOrder::Together)];
+    let nkeys = prop_oneof![3 => Just(1u8), 1 => Just(2u8), 1 => Just(6u8)];
+    (shape, order, nkeys, 0u8..4, 0u8..8, input_strategy(tier, false), input_strategy(tier, false), prop_oneof![Just(2u16), Just(8192u16)], prop::bool::weighted(0.2))
+        .prop_map(|(shape, order, nkeys, take, gap, a, b, batch_size, streaming_provider)| {
+            let b = if shape.uses_b() { b } else { vec![] };
+            Case {
+                kind: Kind::PartialDrop { order, nkeys, take, gap },
+                plan: PlanSpec { shape, a, b, target_partitions: 2, batch_size, mem_kb: None, fair: false, pad: 0, streaming_provider },
+                mt: true,
+                coalesce: false,
+                hang: Hang::No,
+            }
+        })
+        .boxed()
+}
+
 fn case_strategy(tier: Tier) -> BoxedStrategy<Case> {
+    prop_oneof![5 => main_strategy(tier), 1 => partial_strategy(tier)].boxed()
+}
+
+fn main_strategy(tier: Tier) -> BoxedStrategy<Case> {
     let kind = prop_oneof![8 => Just(Kind::Drop), 1 => (1u8..6).prop_map(|after| Kind::CoopAbort { after }), 1 => Just(Kind::CoopTimeout)];
     (kind, shape_strategy(), prop::bool::weighted(0.3))
         .prop_flat_map(move |(kind, shape, errors)| {
@@ -430,6 +489,7 @@ fn base_labels(case: &Case) -> Vec<String> {
             Kind::Drop => "drop",
             Kind::CoopAbort { .. } => "coop-abort",
             Kind::CoopTimeout => "coop-timeout",
+            Kind::PartialDrop { .. } => "partial-drop",
         }),
         format!("shape={}", p.shape.name()),
         format!("rt={}", if case.mt { "multi" } else { "current" }),
@@ -555,6 +615,138 @@ fn run_drop(case: &Case) -> CaseResult {
         }
         if nontrivial {
             labels.push("mid-stream-drop-with-something-held".into());
+        }
+        CaseResult::pass().nontrivial(nontrivial)
+    });
+    drop(rt);
+    let mut res = res;
+    for l in labels {
+        if !res.labels.contains(&l) {
+            res.labels.push(l);
+        }
+    }
+    res
+}
+
+/// Exchange over endless never-Pending sources; one stream per output partition; the streams are
+/// dropped in two groups (those that received data / those that did not) in the generated order,
+/// then the plan; afterwards the usual release oracle with the multi-thread bound. A background
+/// task that stopped yielding cannot be aborted: its source token stays alive → violation; the
+/// harness then raises the sources' stop flag so that the runtime can wind down.
+/// Multi-thread release bound (10 000 x 1 ms) without relying on tokio's timer: tasks that spin
+/// without yielding can pin every worker thread, and then no timer fires.
+fn settle_blocking(built: &Built) -> (Held, usize) {
+    let mut h = built.env.held(&built.monitor, 0);
+    for i in 0..SETTLE_STEPS {
+        if h.clean() {
+            return (h, i);
+        }
+        std::thread::sleep(Duration::from_millis(1));
+        h = built.env.held(&built.monitor, 0);
+    }
+    (h, SETTLE_STEPS)
+}
+
+fn run_partial(case: &Case, order: DropOrder, nkeys: u8, take: u8, gap: u8) -> CaseResult {
+    let rt = match runtime(true) {
+        Ok(rt) => rt,
+        Err(e) => return CaseResult::inconclusive(format!("runtime: {e}")),
+    };
+    let mut labels = base_labels(case);
+    labels.push(format!("order={order:?}"));
+    labels.push(format!("tail-keys={nkeys}"));
+    let res = rt.block_on(async {
+        let mut built = match build(&case.plan, Ending::TailKeys(u64::MAX / 4, nkeys), false).await {
+            Ok(b) => b,
+            Err(BuildError::Rejected(m)) => return CaseResult::discard(format!("rejected: {}", truncate(&m, 50))),
+            Err(BuildError::Harness(m)) => return CaseResult::inconclusive(format!("harness: {m}")),
+        };
+        let Some(plan) = built.plan.clone() else { return CaseResult::inconclusive("harness: no plan") };
+        let mut ops = vec![];
+        plan_ops(&plan, &mut ops);
+        for op in &ops {
+            let l = format!("op={op}");
+            if !labels.contains(&l) {
+                labels.push(l);
+            }
+        }
+        let n = plan.output_partitioning().partition_count();
+        let mut streams: Vec<Option<SendableRecordBatchStream>> = vec![];
+        for p in 0..n {
+            match plan.execute(p, built.task_ctx.clone()) {
+                Ok(s) => streams.push(Some(s)),
+                Err(e) => {
+                    built.monitor.stop_all();
+                    return CaseResult::discard(format!("rejected: execute: {}", truncate(&e.to_string(), 40)));
+                }
+            }
+        }
+        drop(plan);
+        // phase 1: poll all output streams round-robin until `take` batches arrived (at least one
+        // round, so that the exchange starts), at most 60 rounds of 2 ms per stream
+        let mut counts = vec![0usize; n];
+        let mut total = 0usize;
+        'phase1: for _round in 0..60 {
+            for (i, slot) in streams.iter_mut().enumerate() {
+                let Some(s) = slot else { continue };
+                match tokio::time::timeout(Duration::from_millis(2), s.next()).await {
+                    Ok(Some(Ok(_))) => {
+                        counts[i] += 1;
+                        total += 1;
+                    }
+                    Ok(Some(Err(_))) | Ok(None) => *slot = None,
+                    Err(_) => {}
+                }
+            }
+            if total >= take.max(1) as usize {
+                break 'phase1;
+            }
+        }
+        let hot: Vec<usize> = (0..n).filter(|i| counts[*i] > 0).collect();
+        let cold: Vec<usize> = (0..n).filter(|i| counts[*i] == 0).collect();
+        labels.push(format!("hot={} cold={}", hot.len().min(3), cold.len().min(3)));
+        let (first, second): (Vec<usize>, Vec<usize>) = match order {
+            DropOrder::HotFirst => (hot.clone(), cold.clone()),
+            DropOrder::ColdFirst => (cold.clone(), hot.clone()),
+            DropOrder::Together => ((0..n).collect(), vec![]),
+        };
+        let live_at_first_drop = built.monitor.live_streams();
+        for i in &first {
+            streams[*i] = None;
+        }
+        // phase 2: let the sources advance while only the second group is still connected
+        if !second.is_empty() {
+            let start = built.monitor.batches();
+            for _ in 0..40 {
+                if built.monitor.batches() >= start + 16 * gap as u64 {
+                    break;
+                }
+                // std sleep on purpose: spinning tasks may pin every worker, and then nobody drives
+                // tokio's timer; this thread (block_on) is not a worker
+                std::thread::sleep(Duration::from_millis(1));
+            }
+        }
+        let advanced = built.monitor.batches();
+        drop(streams);
+        built.plan = None;
+        let (held, steps) = settle_blocking(&built);
+        built.monitor.stop_all();
+        if !held.clean() {
+            // give the stopped sources a moment so that the runtime can shut down
+            for _ in 0..200 {
+                if built.env.held(&built.monitor, 0).tasks == 0 {
+                    break;
+                }
+                std::thread::sleep(Duration::from_millis(5));
+            }
+            return CaseResult::violation(format!(
+                "output streams dropped in order {order:?} (first group {first:?}, then {second:?}; {total} batches taken, per stream {counts:?}; tail keys {nkeys}), then the plan: still held after {steps} x 1 ms: {held:?} — a background task keeps its endless input alive (does it still yield?); {advanced} source batches had been produced at the last drop; ops {ops:?}"
+            ));
+        }
+        labels.push(format!("settle={}", if steps == 0 { "0" } else if steps <= 2 { "1-2" } else if steps <= 10 { "3-10" } else { "11+" }));
+        let nontrivial = live_at_first_drop > 0 && total > 0;
+        if !first.is_empty() && !second.is_empty() {
+            labels.push("two-phase-drop".into());
         }
         CaseResult::pass().nontrivial(nontrivial)
     });
@@ -751,7 +943,7 @@ impl Property for C19 {
     fn known_signature(&self, case: &Case) -> Option<String> {
         // finding "ensure-coop-skips-leaf-under-coop-exchange": EnsureCooperative leaves a
         // non-cooperative leaf unwrapped when a Cooperative *and Eager* exchange sits above it
-        if case.kind == Kind::Drop || case.plan.streaming_provider {
+        if !matches!(case.kind, Kind::CoopAbort { .. } | Kind::CoopTimeout) || case.plan.streaming_provider {
             return None;
         }
         let rt = runtime(false).ok()?;
@@ -775,6 +967,7 @@ impl Property for C19 {
         }
         match case.kind {
             Kind::Drop => run_drop(case),
+            Kind::PartialDrop { order, nkeys, take, gap } => run_partial(case, order, nkeys, take, gap),
             _ => run_coop(case),
         }
     }
